@@ -16,6 +16,21 @@ for line in p.stdout.splitlines():
     if ev.get('Action') in ('pass', 'fail', 'skip') and ev.get('Test'):
         res[f"{ev['Package']}::{ev['Test']}"] = ev['Action']
 missing = sorted(t for t in stable if res.get(t) != 'pass')
+# timing-sensitive tests (e.g. internal/aof/log Test_AppendStore, 200 ms budget) can fail on a loaded machine:
+# re-run the packages of the tests that did not pass, up to twice, before judging
+for attempt in range(2):
+    if not missing:
+        break
+    pkgs = sorted({t.split('::')[0] for t in missing})
+    p2 = subprocess.run(['go', 'test', '-json', '-vet=off', '-count=1', '-timeout', '25m'] + pkgs, cwd=repo, env=env, capture_output=True, text=True)
+    for line in p2.stdout.splitlines():
+        try:
+            ev = json.loads(line)
+        except Exception:
+            continue
+        if ev.get('Action') == 'pass' and ev.get('Test'):
+            res[f"{ev['Package']}::{ev['Test']}"] = 'pass'
+    missing = sorted(t for t in stable if res.get(t) != 'pass')
 print(f"baseline: {len(stable)} stable tests, {sum(1 for t in stable if res.get(t)=='pass')} pass now, {len(missing)} not passing; total results {len(res)}")
 for t in missing[:40]:
     print("  NOT PASSING:", t, res.get(t))
